@@ -51,6 +51,7 @@ type scenario struct {
 	Internal  int     `json:"internal"` // number of internal sockets (two per host)
 	Remotes   int     `json:"remotes"`  // number of remote sockets (two per host: same IP, other port)
 	Events    []event `json:"events"`
+	PairMix   int     `json:"pairMix,omitempty"` // 1:1 mode: 0 pairs listed ascending, 1 listed in reverse order, 2 crossed (lowest external IP with highest local IP)
 	RemoteSet int     `json:"remoteSet,omitempty"` // which set of remote host addresses (see remoteSets)
 	Exhaust   bool    `json:"exhaust"` // first create 16385 mappings towards distinct remote ports
 	TwoIPs    bool    `json:"twoIPs"`  // the NAPT router holds two addresses on its parent network
@@ -67,6 +68,7 @@ func gen(r *harn.Rng, tier string) interface{} {
 		sc.TwoIPs = true
 	}
 	sc.RemoteSet = r.Intn(2)
+	sc.PairMix = r.Pick(0, 0, 1, 2)
 	if (tier == "thorough" && r.Bool(0.02)) || r.Bool(0.0015) || os.Getenv("VERIF_C02_EXHAUST") != "" {
 		sc.Exhaust = true
 		sc.Mapping = 2
@@ -206,7 +208,14 @@ func run(env *simrt.Env, sci interface{}) {
 		lanCfg.StaticIPs = nil
 		for k := 0; k < sc.OneToOne; k++ {
 			ext, loc := fmt.Sprintf("1.2.3.%d", 1+k), fmt.Sprintf("192.168.0.%d", 1+k)
-			lanCfg.StaticIPs = append(lanCfg.StaticIPs, ext+"/"+loc)
+			if sc.PairMix == 2 {
+				loc = fmt.Sprintf("192.168.0.%d", sc.OneToOne-k)
+			}
+			if sc.PairMix == 1 {
+				lanCfg.StaticIPs = append([]string{ext + "/" + loc}, lanCfg.StaticIPs...)
+			} else {
+				lanCfg.StaticIPs = append(lanCfg.StaticIPs, ext+"/"+loc)
+			}
 			pairExt[loc], pairLoc[ext] = ext, loc
 		}
 	}
